@@ -215,12 +215,14 @@ def _live_cases(rng, tier):
     if len(elig) >= 6:
         states.append(("multirange", elig[:2] + elig[3:5]))
         states.append(("first-single", elig[:1] + elig[2:4]))
-    inel = [c for c in range(ncpu + 2) if c not in elig]
+    inel = [c for c in range(1024) if c not in elig][:2]
     for name, mask in states:
         out.append(_live("live-aff-empty-" + name, elig, ncpu, ["aff", []], mask=mask))
         out.append(_live("live-aff-get-" + name, elig, ncpu, ["aff", None], mask=mask))
-        for l in [[elig[0], elig[0]], list(elig) + [elig[0]], [99], [-1], [-5], [1024], [2 ** 63 - 1], [2 ** 70], [inel[0]], inel[:2],
-                  [elig[0], 99], [99, -1]]:
+        for l in [[elig[0], elig[0]], list(elig) + [elig[0]], [1023], [-1], [-5], [1024], [2 ** 63 - 1], [2 ** 70], inel[:1], inel[:2],
+                  [elig[0], 1024], [1024, -1]]:
+            if not l:
+                continue
             k = "live-aff-valid-" if all(c in elig for c in l) else "live-aff-invalid-" if not any(c in elig for c in l) else "live-aff-mixed-"
             out.append(_live(k + name, elig, ncpu, ["aff", l], mask=mask))
     import resource
